@@ -50,11 +50,27 @@ namespace
 
     sigjmp_buf g_watchdog_jb;
     volatile sig_atomic_t g_watchdog_armed = 0;
+    // The backstop reads a real clock (CPU time of this process), which the host can distort: a paused or starved VM charges the pause to whatever
+    // was running. So (1) the timer only counts while the process is INSIDE a library call - never in harness code, where a longjmp out of
+    // malloc would corrupt the process - and (2) it takes WATCHDOG_EXPIRIES separate expiries within one and the same call, a quarter of the
+    // allowance each, to declare a stall: one jump of the clock yields one expiry. (3) A stall that does not show again when the plan is
+    // re-executed is dropped as a clock artefact (real_clock_class below); a real stall is a function of the plan and always shows again.
+    constexpr int WATCHDOG_EXPIRIES = 4;
+    volatile sig_atomic_t g_in_call = 0, g_expiries = 0;
+    volatile uint64_t g_call_seq = 0, g_expiry_seq = ~0ull;
     void on_vtalrm(int)
     {
-        if (g_watchdog_armed)
+        if (!g_watchdog_armed || !g_in_call)
+            return;
+        if (g_expiry_seq != g_call_seq)
+        {
+            g_expiry_seq = g_call_seq;
+            g_expiries = 0;
+        }
+        if (++g_expiries >= WATCHDOG_EXPIRIES)
         {
             g_watchdog_armed = 0;
+            g_in_call = 0;
             siglongjmp(g_watchdog_jb, 1);
         }
     }
@@ -75,6 +91,7 @@ namespace
         uint64_t last_blocks = 0;
         bool last_block_exceeded = false;
         bool last_stack_exceeded = false;
+        bool last_stalled = false;
         uint64_t max_ops = 64;
         bool finite_only = false; // the build promised the library no inf/NaN/denormal inputs (XSIMD_NO_* macros): generate none
         uint64_t watchdog_ms = 400;
@@ -99,8 +116,20 @@ namespace
             struct sigaction sa;
             memset(&sa, 0, sizeof sa);
             sa.sa_handler = on_vtalrm;
+            sa.sa_flags = SA_RESTART;
             sigemptyset(&sa.sa_mask);
             sigaction(SIGVTALRM, &sa, nullptr);
+        }
+        // the backstop timer runs for the whole life of the process (a SIGVTALRM per slice of CPU time); the handler ignores every expiry that does
+        // not fall inside a library call, so every mode - plans, walks, sweeps - is covered by the same rule
+        void start_watchdog_timer()
+        {
+            struct itimerval tv;
+            memset(&tv, 0, sizeof tv);
+            const uint64_t slice_us = std::max<uint64_t>(1000, watchdog_ms * 1000 / WATCHDOG_EXPIRIES);
+            tv.it_value.tv_sec = tv.it_interval.tv_sec = (long)(slice_us / 1000000);
+            tv.it_value.tv_usec = tv.it_interval.tv_usec = (long)(slice_us % 1000000);
+            setitimer(ITIMER_VIRTUAL, &tv, nullptr);
         }
         static std::string key(const FnEntry& e) { return std::string(e.name) + "/" + e.tname + "/" + e.arch; }
         void configure(const sim::Params& p)
@@ -109,10 +138,12 @@ namespace
             tick_clock().budget = p.u64("budget", 4096);
             tick_clock().block_budget = p.u64("block_budget", 1u << 18);
             watchdog_ms = p.u64("watchdog_ms", 400);
+            start_watchdog_timer();
             only_fn = p.str("only_fn", "");
             finite_only = p.u64("finite_only", 0) != 0;
         }
         uint64_t shrink_budget() const { return 400; }
+        bool real_clock_class(const std::string& cls) const { return cls.compare(0, 37, "C14/stall-outside-instrumented-loops(") == 0; }
 
         // the clock must be wired: a dummy loop of 10000 ticks has to hit the budget
         void startup_selftest()
@@ -486,11 +517,36 @@ namespace
             }
             char here;
             c.sp0 = &here;
+            last_stalled = false;
+            if (sigsetjmp(g_watchdog_jb, 0) != 0)
+            {
+                // the CPU-time backstop fired WATCHDOG_EXPIRIES times inside this one call (handler -> here; the signal is still blocked)
+                sigset_t m;
+                sigemptyset(&m);
+                sigaddset(&m, SIGVTALRM);
+                sigprocmask(SIG_UNBLOCK, &m, nullptr);
+                c.armed = false;
+                _mm_setcsr(0x1f80);
+                exceeded = true;
+                last_stalled = true;
+                last_stack_exceeded = false;
+                last_block_exceeded = false;
+                ticks = c.ticks;
+                last_blocks = c.blocks;
+                if (out_hash)
+                    *out_hash = 0;
+                return;
+            }
             c.armed = true;
+            g_call_seq = g_call_seq + 1;
+            g_watchdog_armed = 1;
+            g_in_call = 1;
             if (setjmp(c.jb) == 0)
                 fe.call(in_a, in_b, outb);
             else
                 exceeded = true;
+            g_in_call = 0;
+            g_watchdog_armed = 0;
             c.armed = false;
             last_stack_exceeded = c.stack_exceeded;
             _mm_setcsr(csr_default & ~0x3fu); // back to the default environment, sticky exception flags cleared
@@ -513,24 +569,6 @@ namespace
         {
             sim::Outcome out;
             volatile size_t cur = 0;
-            struct itimerval tv, off;
-            memset(&tv, 0, sizeof tv);
-            memset(&off, 0, sizeof off);
-            tv.it_value.tv_sec = (long)(watchdog_ms / 1000);
-            tv.it_value.tv_usec = (long)(watchdog_ms % 1000) * 1000;
-            if (sigsetjmp(g_watchdog_jb, 1) != 0)
-            {
-                // CPU-time watchdog fired inside plan[cur]: a stall at a site that has no tick
-                tick_clock().armed = false;
-                const FnEntry& fe = table[(size_t)plan[cur].fn];
-                out.violate(sim::fmt("C14/stall-outside-instrumented-loops(%s,%s)", fe.name, fe.tname),
-                            sim::fmt("%s<%s,%s> consumed more than %llu ms of CPU time in one call without exceeding the tick budget", fe.name, fe.tname, fe.arch, (unsigned long long)watchdog_ms));
-                log.rec("stall", (uint64_t)plan[cur].fn);
-                out.ops_executed = cur + 1;
-                return out;
-            }
-            g_watchdog_armed = 1;
-            setitimer(ITIMER_VIRTUAL, &tv, nullptr);
             for (cur = 0; cur < plan.size(); cur = cur + 1)
             {
                 const Op& op = plan[cur];
@@ -538,6 +576,15 @@ namespace
                 uint64_t ticks = 0, oh = 0;
                 bool exceeded = false;
                 run_call(op, ticks, exceeded, &oh);
+                if (last_stalled)
+                {
+                    // a stall at a site that has neither a loop tick nor a basic block of instrumented code
+                    out.violate(sim::fmt("C14/stall-outside-instrumented-loops(%s,%s)", fe.name, fe.tname),
+                                sim::fmt("%s<%s,%s> consumed more than %llu ms of CPU time in one call without exceeding the tick or block budget", fe.name, fe.tname, fe.arch, (unsigned long long)watchdog_ms));
+                    log.rec("stall", (uint64_t)op.fn);
+                    out.ops_executed = cur + 1;
+                    return out;
+                }
                 ++c_calls;
                 ++cl_budget;
                 c_ticks += ticks;
@@ -591,8 +638,6 @@ namespace
                                          site_name(s).c_str(), (unsigned long long)op.a[0]));
                 }
             }
-            g_watchdog_armed = 0;
-            setitimer(ITIMER_VIRTUAL, &off, nullptr);
             ++cl_backstop;
             out.ops_executed = plan.size();
             return out;
@@ -788,6 +833,9 @@ namespace
         // every entry of the nearpi table (both signs) through every function that reduces an argument modulo pi/2, alone and next to the
         // companions that change how the batch is routed (a lane beyond the medium range, an infinite or NaN lane): the table is small enough
         // to be walked completely, which the main generator (one random entry per draw) cannot do within a quick run
+        // walks (nearpi, blast, sweep) stop feeding a function once it has exceeded its budget this many times in this worker: the verdict on it is
+        // in, and on a broken tree a walk in which every fourth call burns the whole block budget would otherwise take hours to say it again
+        static constexpr uint64_t FLOOD_CAP = 64;
         template <class W>
         bool nearpi_sweep(const sim::Args& args, W& w)
         {
@@ -801,12 +849,13 @@ namespace
                 if (trig && table[i].tname[0] == 'f' && (!strcmp(table[i].arch, "avx512f") || !strcmp(table[i].arch, "sse2")) && (only_fn.empty() || only_fn == table[i].name))
                     fns.push_back((int)i);
             }
-            uint64_t calls = 0, item = 0;
+            uint64_t calls = 0, item = 0, cut_short = 0;
             for (int fn : fns)
             {
                 const FnEntry& fe = table[(size_t)fn];
                 const bool f32 = fe.elem_size == 4;
                 const std::vector<uint64_t>& tab = f32 ? nearpi_f32 : nearpi_f64;
+                uint64_t fn_exceeded = 0; // a function that exceeded FLOOD_CAP times is decided: the rest of its walk would only repeat the report
                 const uint64_t signbit = 1ull << (f32 ? 31 : 63);
                 const uint64_t comp[4] = { 0, from_double(1e22, f32), from_double(INFINITY, f32), from_double(NAN, f32) };
                 for (size_t k = 0; k < tab.size(); ++k)
@@ -815,6 +864,11 @@ namespace
                         {
                             if (item % args.stride != args.offset || (finite_only && m >= 2))
                                 continue;
+                            if (fn_exceeded >= FLOOD_CAP)
+                            {
+                                ++cut_short;
+                                continue;
+                            }
                             const uint64_t x = tab[k] | (sg ? signbit : 0);
                             auto build = [&]() -> Plan
                             {
@@ -841,10 +895,13 @@ namespace
                             c_ticks += t;
                             c_blocks += last_blocks;
                             if (ex)
+                            {
+                                ++fn_exceeded;
                                 w.process(pl, item, item, build);
+                            }
                         }
             }
-            printf("%s\n", sim::json::dump(Value::object().set("nearpi", Value::object().set("functions", (unsigned long long)fns.size()).set("calls", (unsigned long long)calls)
+            printf("%s\n", sim::json::dump(Value::object().set("nearpi", Value::object().set("functions", (unsigned long long)fns.size()).set("calls", (unsigned long long)calls).set("cut_short", (unsigned long long)cut_short)
                                                                           .set("table_f32", (unsigned long long)nearpi_f32.size()).set("table_f64", (unsigned long long)nearpi_f64.size()))).c_str());
             return true;
         }
@@ -918,7 +975,8 @@ namespace
                     op.sign = 0;
                     return Plan { op };
                 };
-                for (uint64_t i = args.offset; i < per_fn; i += args.stride)
+                uint64_t fn_exceeded = 0;
+                for (uint64_t i = args.offset; i < per_fn && fn_exceeded < FLOOD_CAP; i += args.stride)
                 {
                     Plan pl = build(i);
                     uint64_t t = 0;
@@ -931,6 +989,7 @@ namespace
                     c_blocks += last_blocks;
                     if (ex)
                     {
+                        ++fn_exceeded;
                         uint64_t idx = ((uint64_t)fn << 40) | i;
                         w.process(pl, idx, idx, [&]() { return build(i); });
                     }
@@ -955,8 +1014,8 @@ namespace
             Value per_fn = Value::object();
             for (int fn : fns)
             {
-                uint64_t fn_worst = 0;
-                for (uint64_t c = args.offset; c < chunks; c += args.stride)
+                uint64_t fn_worst = 0, fn_exceeded = 0;
+                for (uint64_t c = args.offset; c < chunks && fn_exceeded < FLOOD_CAP; c += args.stride)
                 {
                     Op op;
                     op.fn = fn;
@@ -978,6 +1037,7 @@ namespace
                         worst_ticks = t;
                     if (ex)
                     {
+                        ++fn_exceeded;
                         op.binade = (int)((op.a[0] >> 23) & 0xff);
                         op.sign = (int)(op.a[0] >> 31);
                         op.family = 9;
